@@ -365,6 +365,15 @@ func (r *run) runStore(ctx context.Context, wg *sync.WaitGroup, first datum, sec
 	fresh, store, reads := first.fresh, first.store, first.reads
 	nReaders := 2 + verifrt.Intn("cfg", 2)
 	stored := false
+	// In the runs where the writer is the mutator, half of the stores are made with a context of the writer's
+	// own that is already cancelled or ends within a few milliseconds: the store may return the context's error
+	// while the component still holds (and may yet insert) what it was handed. The writer treats its object as its
+	// own again from the moment Store has returned - whatever it returned.
+	abandon := 0
+	if r.byWriter && !r.expire {
+		abandon = 2 + verifrt.Intn("cfg", 4) // 4: cancelled before the call, 5: ends 0-3 ms into the run
+	}
+	abandoned := false
 	wg.Add(1)
 	verifrt.Go(func() {
 		defer wg.Done()
@@ -372,7 +381,26 @@ func (r *run) runStore(ctx context.Context, wg *sync.WaitGroup, first datum, sec
 		v := fresh()
 		h := r.hand("writer", v)
 		verifrt.Note("writer stores")
-		if err := store(ctx, v); err != nil {
+		wctx := ctx
+		if abandon >= 4 {
+			var wcancel context.CancelFunc
+			if abandon == 4 {
+				wctx, wcancel = context.WithCancel(ctx)
+				wcancel()
+			} else {
+				wctx, wcancel = context.WithTimeout(ctx, time.Duration(verifrt.Intn("w", 4))*time.Millisecond)
+			}
+			defer wcancel()
+		}
+		if err := store(wctx, v); err != nil {
+			if wctx.Err() != nil && ctx.Err() == nil {
+				verifrt.Probe("store-returned-its-callers-context-error")
+				verifrt.Note("the store returned its caller's context error; the writer takes its object back")
+				abandoned = true
+				pause("w", 3)
+				h.scramble()
+				return
+			}
 			if ctx.Err() == nil {
 				r.unexpected("store", err)
 			}
@@ -407,7 +435,7 @@ func (r *run) runStore(ctx context.Context, wg *sync.WaitGroup, first datum, sec
 	// Quiescence: all delays are a few milliseconds; after this sleep everything that was going to
 	// happen has happened (in an expiry run: including the deadline of the duty, one second in).
 	verifrt.Sleep(2 * time.Second)
-	if !stored {
+	if !stored && !abandoned {
 		return
 	}
 	if r.expire && second != nil {
